@@ -54,7 +54,7 @@ FORMATS = [(d, h, t) for d in (True, False) for h in ('', '^') for t in ('', '.'
 def budget(tier):
     if tier == "quick":
         return {"examples": 6000, "shards": 16}
-    return {"examples": 600000, "shards": 16}
+    return {"examples": 300000, "shards": 16}
 
 
 # ---------------------------------------------------------------- environment
